@@ -2,36 +2,7 @@
 From DV Require Import Run_C09 C09P Run_C18.
 Open Scope Z_scope.
 
-(* ------------------------------------------------------------------ a recomputation reports every dirty row *)
-Lemma cloop_reports : forall s todo pre c rep lg' rep',
-  cloop s pre todo c rep = (lg', rep') ->
-  (forall k, In k rep -> In k rep') /\ (forall l, In l todo -> l_dirty l = true -> In (lrow_key l) rep').
-Proof.
-  intros s todo; induction todo as [|l t IH]; intros pre c rep lg' rep' H; cbn [cloop] in H.
-  - inversion H; subst. split; [auto | intros l []].
-  - destruct (selected (pre ++ l :: t) l) eqn:Hsel.
-    + destruct (l_dirty l) eqn:Hd.
-      * destruct (process_dirty s c l) as [l1 c1].
-        assert (G : exists pre2 c2, cloop s pre2 t c2 (rep ++ [lrow_key l]) = (lg', rep')).
-        { destruct (N.ltb (l_n l) (l_n l1) && selected (pre ++ l1 :: t) l1).
-          - destruct (process_clean c1 l1) as [l2 c2]. eauto.
-          - eauto. }
-        destruct G as [pre2 [c2 G]]. apply IH in G as [A B]. split.
-        -- intros k Hk. apply A. apply in_or_app; left; exact Hk.
-        -- intros x [Hx|Hx] Hdx; [subst x; apply A; apply in_or_app; right; left; reflexivity | apply B; assumption].
-      * destruct (process_clean c l) as [l1 c1]. apply IH in H as [A B]. split; [exact A|].
-        intros x [Hx|Hx] Hdx; [subst x; congruence | apply B; assumption].
-    + apply IH in H as [A B]. split; [exact A|].
-      intros x [Hx|Hx] Hdx; [|apply B; assumption]. subst x.
-      rewrite (dirty_selected (pre ++ l :: t) l) in Hsel; [discriminate | apply in_or_app; right; left; reflexivity | exact Hdx].
-Qed.
-Lemma compute_reports_all_dirty : forall s s' rep, compute s = (s', rep) ->
-  forall l, In l (log s) -> l_dirty l = true -> In (lrow_key l) rep.
-Proof.
-  intros s s' rep H l Hin Hd. unfold compute in H.
-  destruct (cloop s [] (log s) cinit []) as [lg rp] eqn:E. inversion H; subst.
-  apply cloop_reports in E as [_ B]. apply B; assumption.
-Qed.
+(* a recomputation reports every dirty row: C09P.compute_reports_all_dirty (both versions of compute) *)
 
 (* ------------------------------------------------------------------ the end of a batch makes every mark a dirty row *)
 Definition dirty_key (lg : list lrow) (k : lkey) : Prop := exists l, In l lg /\ lrow_key l = k /\ l_dirty l = true.
